@@ -200,6 +200,9 @@ NOTES = {
     'C09-bond-numiter-default': 'round 6, first run: MISSED (with |dt| ||H|| <= 2 a Krylov space of 25 vectors is exact to rounding). r_C09 has purely imaginary steps with |dt| ||H|| between 30 and 50 on local problems of more than 25 dimensions; the sweep contracts (engine Z, now also registered for C09) have the obligation that every local step receives the caller\'s numiter_lanczos',
     'C09-twosite-backstep-numiter': 'round 6, first run: MISSED. Same additions',
     'C17-stale-leaf-flag': 'round 7, first run: MISSED (trees were always built through the constructor). The tree builder of the stand-ins creates about half of the nodes empty and attaches the children with add_child',
+    'C04-sector-shortcut': 'round 7, first run: MISSED (shifted bond charges existed for vdot only). r_C04 shifts the bond charges of bra, operator and ket by independent constants in the inner-product cases',
+    'C18-phase-cap': 'round 7, first run: MISSED (random and small exhaustive graphs need few phases). r_C18 has unions of paths of lengths 3, 5, ..., 2m+1 with the end vertex indexed last (m up to 9 quick, 15 thorough), which need a number of phases growing with m',
+    'C18-int-validation': 'round 7, first run: MISSED. The same graphs are also passed with NumPy integers as vertex indices',
     'C17-optree-node-children-alias': 'round 5, first run: MISSED. r_C17 builds two tree nodes from one list and extends one; engine F distinguishes keeping the *elements* of a list (allowed for nodes) from keeping the list itself',
     'C06-zero-coeff-filter-tolerance': 'first run: MISSED. r_C06 now includes parameter points scaled by 1e-9 ... 1e+12 (every parameter value is legal)',
 }
